@@ -82,6 +82,9 @@ Definition scan_descent_tuple (l : key) (rtl : bool) : ktuple :=
 Inductive sb_res := SB_END | SB_CONT | SB_ERR.
 
 Section ScanBorder.
+  (** [fix2]: record the enclosing border also when the scan ends on one of its layer
+      links (the "fix:" commit for finding F2); [false] = the pinned source *)
+  Variable fix2 : bool.
   (** [sub p_slices p_bytes l le r re acc] scans the layer at prefix p_slices *)
   Variable sub : prefix -> key -> key -> endpoint -> key -> endpoint -> scan_acc -> option scan_acc.
   Variable mx : nat.
@@ -126,13 +129,14 @@ Section ScanBorder.
               end
             end in
           match rarg with
-          | None => (SB_END, pushed, acc)
+          | None => (SB_END, pushed, if fix2 && negb pushed then acc_push_nv acc bid bver else acc)
           | Some None => (SB_ERR, pushed, acc)
           | Some (Some (ar, are)) =>
             match sub (p_slices ++ [ks kt]) full al ale ar are acc with
             | None => (SB_ERR, pushed, acc)
             | Some acc' =>
-              if max_reached mx acc' then (SB_END, pushed, acc')
+              if max_reached mx acc'
+              then (SB_END, pushed, if fix2 && negb pushed then acc_push_nv acc' bid bver else acc')
               else scan_entries rest pushed acc'
             end
           end
@@ -177,6 +181,7 @@ Section ScanBorder.
 End ScanBorder.
 
 Section ScanLeaves.
+  Variable fix2 : bool.
   Variable sub : prefix -> key -> key -> endpoint -> key -> endpoint -> scan_acc -> option scan_acc.
   Variable mx : nat. Variable rtl : bool.
   Variable p_slices : prefix. Variable p_bytes : key.
@@ -189,7 +194,7 @@ Section ScanLeaves.
     | [] => Some acc
     | lf :: rest =>
       let es := if rtl then rev (leaf_ranked lf) else leaf_ranked lf in
-      match scan_entries sub mx p_slices p_bytes l le r re (lf_id lf) (lf_ver lf) es false acc with
+      match scan_entries fix2 sub mx p_slices p_bytes l le r re (lf_id lf) (lf_ver lf) es false acc with
       | (SB_ERR, _, _) => None
       | (SB_END, _, acc') => Some acc'
       | (SB_CONT, pushed, acc') =>
@@ -203,7 +208,7 @@ Section ScanLeaves.
 End ScanLeaves.
 
 (** scan of one layer (scan_helper.h scan): descent with the left key, then the chain *)
-Fixpoint scan_layer (fuel : nat) (ls : layers_t) (mx : nat) (rtl : bool)
+Fixpoint scan_layer (fix2 : bool) (fuel : nat) (ls : layers_t) (mx : nat) (rtl : bool)
          (p_slices : prefix) (p_bytes : key) (l : key) (le : endpoint) (r : key) (re : endpoint)
          (acc : scan_acc) : option scan_acc :=
   match fuel with
@@ -215,7 +220,7 @@ Fixpoint scan_layer (fuel : nat) (ls : layers_t) (mx : nat) (rtl : bool)
       match find_leaf root (scan_descent_tuple l rtl) with
       | None => None
       | Some start =>
-        scan_leaves (scan_layer f ls mx rtl) mx rtl p_slices p_bytes l le r re
+        scan_leaves fix2 (scan_layer fix2 f ls mx rtl) mx rtl p_slices p_bytes l le r re
                     (skip_to (lf_id start) (bt_leaves root)) acc
       end
     end
@@ -241,7 +246,7 @@ Definition scan_validate (a : scan_args) : option status :=
   end.
 
 (** the traversal part of scan() *)
-Definition scan_body (tr : tree) (a : scan_args) : option scan_out :=
+Definition scan_body (fix2 : bool) (tr : tree) (a : scan_args) : option scan_out :=
   if t_null tr then Some (scan_fail St_OK_ROOT_IS_NULL)
   else
     match layer_get (t_layers tr) [] with
@@ -253,7 +258,7 @@ Definition scan_body (tr : tree) (a : scan_args) : option scan_out :=
         if get_deleted (lf_ver start) && get_root (lf_ver start)
         then Some {| so_status := St_OK; so_tuples := []; so_nv := [(lf_id start, lf_ver start)] |}
         else
-          match scan_layer (S (length (t_layers tr))) (t_layers tr) (sa_max a) (sa_rtl a)
+          match scan_layer fix2 (S (length (t_layers tr))) (t_layers tr) (sa_max a) (sa_rtl a)
                            [] [] (sa_l a) (sa_le a) (sa_r a) (sa_re a)
                            {| ac_tuples := []; ac_nv := [] |} with
           | None => None
@@ -267,7 +272,7 @@ Definition scan_body (tr : tree) (a : scan_args) : option scan_out :=
 Definition scan_orig (tr : tree) (a : scan_args) : option scan_out :=
   match scan_validate a with
   | Some s => Some (scan_fail s)
-  | None => scan_body tr a
+  | None => scan_body false tr a
   end.
 
 (** an INF endpoint ignores the key passed with it ("fix:" commit for F1) *)
@@ -282,5 +287,12 @@ Definition scan_normalise (a : scan_args) : scan_args :=
 Definition scan (tr : tree) (a : scan_args) : option scan_out :=
   match scan_validate a with
   | Some s => Some (scan_fail s)
-  | None => scan_body tr (scan_normalise a)
+  | None => scan_body true tr (scan_normalise a)
+  end.
+
+(** the scan before the F2 fix (with the F1 fix) *)
+Definition scan_nofix2 (tr : tree) (a : scan_args) : option scan_out :=
+  match scan_validate a with
+  | Some s => Some (scan_fail s)
+  | None => scan_body false tr (scan_normalise a)
   end.
